@@ -61,63 +61,63 @@ CHECKS = {
     },
     "C01": {
         "packages": ["vchecks", "vgen"],
-        "steps": [l3("c01", "l3", 90000, 4800000)],
+        "steps": [l3("c01", "l3", 90000, 24000000)],
         "assumptions": L3_ASSUME,
     },
     "C02": {
         "packages": ["vchecks", "vgen"],
-        "steps": [l3("c02", "l3", 90000, 4800000), l3("c02-body", "body", 30000, 1600000, gen=GEN_MAGIC)],
+        "steps": [l3("c02", "l3", 90000, 24000000), l3("c02-body", "body", 30000, 6400000, gen=GEN_MAGIC)],
         "assumptions": L3_ASSUME,
     },
     "C03": {
         "packages": ["vchecks", "vgen"],
-        "steps": [vc("c03a", "api", 30000, 1600000), vc("c03-maps", "maps", 20000, 800000), l3("c03b", "l3", 90000, 4800000),
-                  l3("c03-enums", "enums", 1, 1), l3("c03-body", "body", 30000, 1600000, gen=GEN_MAGIC)],
+        "steps": [vc("c03a", "api", 30000, 8000000), vc("c03-maps", "maps", 20000, 4000000), l3("c03b", "l3", 90000, 24000000),
+                  l3("c03-enums", "enums", 1, 1), l3("c03-body", "body", 30000, 6400000, gen=GEN_MAGIC)],
         "assumptions": L1_ASSUME,
     },
     "C04": {
         "packages": ["vchecks"],
-        "steps": [vc("c04", "trees", 50000, 2400000)],
+        "steps": [vc("c04", "trees", 50000, 16000000)],
         "assumptions": L1_ASSUME,
     },
     "C06": {
         "packages": ["vchecks"],
-        "steps": [vc("c06", "derive", 60000, 3200000), fuzz("derive_total", "C06", 150000)],
+        "steps": [vc("c06", "derive", 60000, 8000000), fuzz("derive_total", "C06", 400000)],
         "assumptions": L1_ASSUME + ["darling_core::derive::* is what the proc-macro entry points in macro/src/lib.rs call after syn parsing; inputs are items syn accepts"],
     },
     "C10": {
         "packages": ["vchecks"],
-        "steps": [vc("c10", "random", 60000, 3200000, produces=["random", "exhaustive"])],
+        "steps": [vc("c10", "random", 60000, 16000000, produces=["random", "exhaustive"])],
         "assumptions": L1_ASSUME + ["the rule table (harness/vchecks/src/c10.rs, DESIGN.md Appendix C) is the reading of the property statement; options the statement does not define (bound, word = false, valued from_ident, attributes on pass-through magic fields, n-tuples under element-level derives) are not generated"],
     },
     "C19": {
         "packages": ["vchecks"],
-        "steps": [vc("c19", "usage", 40000, 1600000, produces=["usage", "bounds"])],
+        "steps": [vc("c19", "usage", 40000, 8000000, produces=["usage", "bounds"])],
         "assumptions": L1_ASSUME + ["the expected answer is known by construction (the generator labels every planted occurrence); binder lifetimes are drawn from a pool that is never queried"],
     },
     "C11": {
         "packages": ["vchecks"],
-        "steps": [vc("c11", "ints", 40000, 1600000, produces=["ints-exhaustive", "ints-random", "misc"])],
+        "steps": [vc("c11", "ints", 40000, 8000000, produces=["ints-exhaustive", "ints-random", "misc"])],
         "assumptions": L1_ASSUME + ["std's FromStr for the integer/float types is the reference; the harness's own arbitrary-precision radix conversion gives the decimal digits of unquoted literals"],
     },
     "C14": {
         "packages": ["vchecks"],
-        "steps": [vc("c14", "maps", 30000, 1600000)],
+        "steps": [vc("c14", "maps", 30000, 8000000)],
         "assumptions": L1_ASSUME + ["the element types' own from_meta is the reference for entry values (differential)"],
     },
     "C13": {
         "packages": ["vchecks"],
-        "steps": [vc("c13", "fragments", 20000, 800000, produces=["fragments", "lits", "numeric", "meta-pathlist"])],
+        "steps": [vc("c13", "fragments", 20000, 3200000, produces=["fragments", "lits", "numeric", "meta-pathlist"])],
         "assumptions": L1_ASSUME + ["syn parsing the fragment directly as the target type is the reference (differential); token comparison ignores punct spacing and invisible groups"],
     },
     "C15": {
         "packages": ["vchecks"],
-        "steps": [vc("c15", "lists", 40000, 1600000, produces=["lists", "routing"]), fuzz("meta_list", "C15", 2000000)],
+        "steps": [vc("c15", "lists", 40000, 8000000, produces=["lists", "routing"]), fuzz("meta_list", "C15", 10000000)],
         "assumptions": L1_ASSUME + ["the documented default chain (from_meta -> from_word/from_list/from_expr -> from_value -> from_bool/from_string/from_char) is read off the FromMeta trait docs"],
     },
     "C12": {
         "packages": ["vchecks"],
-        "steps": [vc("c12", "wrappers", 1500, 64000)],
+        "steps": [vc("c12", "wrappers", 1500, 256000)],
         "assumptions": L1_ASSUME + ["the wrapped type's own from_meta on the same item is the reference (differential)"],
     },
     "C18": {
@@ -127,16 +127,16 @@ CHECKS = {
     },
     "C07": {
         "packages": ["vchecks", "vgen"],
-        "steps": [vc("c07", "builtins", 4000, 160000),
-                  l3("c07b", "recv-main", 60000, 3200000, extra={"stepname": "recv-main"}),
-                  l3("c07b", "recv-magic", 40000, 1600000, gen=GEN_MAGIC, extra={"stepname": "recv-magic"}),
+        "steps": [vc("c07", "builtins", 4000, 640000),
+                  l3("c07b", "recv-main", 60000, 12800000, extra={"stepname": "recv-main"}),
+                  l3("c07b", "recv-magic", 40000, 6400000, gen=GEN_MAGIC, extra={"stepname": "recv-magic"}),
                   l3("c07b", "recv-shapes", 30000, 800000, 4, gen=GEN_SHAPES, extra={"stepname": "recv-shapes"}),
-                  fuzz("runtime_total", "C07", 400000)],
+                  fuzz("runtime_total", "C07", 1500000)],
         "assumptions": L3_ASSUME + ["a panic is observed through catch_unwind and a panic hook; documented panics (Data::empty_from on a union, Error::multiple(vec![]), IdentString::map) are not entry points and are not called"],
     },
     "C08": {
         "packages": ["vchecks", "vgen"],
-        "steps": [l3("c08", "partitions", 12000, 480000), l3("c08-forward", "forward", 30000, 1600000, gen=GEN_MAGIC)],
+        "steps": [l3("c08", "partitions", 12000, 2400000), l3("c08-forward", "forward", 30000, 6400000, gen=GEN_MAGIC)],
         "assumptions": L3_ASSUME + ["merging is checked metamorphically (every partition against the single-attribute rendering), forwarding against the input attributes selected by the declaration"],
     },
     "C09": {
@@ -146,18 +146,18 @@ CHECKS = {
     },
     "C16": {
         "packages": ["vchecks", "vgen"],
-        "steps": [l3("c16", "magic", 40000, 3200000, gen=GEN_MAGIC), vc("c16t", "fields-print", 20000, 800000)],
+        "steps": [l3("c16", "magic", 40000, 12800000, gen=GEN_MAGIC), vc("c16t", "fields-print", 20000, 4000000)],
         "assumptions": L3_ASSUME,
     },
     "C17": {
         "packages": ["vchecks", "vgen"],
-        "steps": [l3("c17", "suggestions-on", 40000, 1600000, gen=GEN_SUGG),
+        "steps": [l3("c17", "suggestions-on", 40000, 6400000, gen=GEN_SUGG),
                   l3("c17", "suggestions-off", 20000, 800000, gen=GEN_SUGG_OFF, extra={"feature": "off"})],
         "assumptions": L3_ASSUME + ["strsim::jaro_winkler is called directly as trusted third-party code; ties between equally similar candidates are accepted either way"],
     },
     "C05": {
         "packages": ["vchecks"],
-        "steps": [vc("c05", "histories", 40000, 1600000)],
+        "steps": [vc("c05", "histories", 40000, 16000000)],
         "assumptions": L1_ASSUME + ["a double panic is observed as the child process not exiting 0"],
     },
 }
